@@ -11,9 +11,18 @@ import (
 // FromLogical writes a logical document as an HTML page: h1..h6, p (with br for
 // line breaks), nested ul/ol, table with rowspan/colspan (covered positions have
 // no td) and one <p> per paragraph of a multi-paragraph cell.
-func FromLogical(d *logical.Doc) []byte {
+func FromLogical(d *logical.Doc) []byte { return fromLogical(d, false) }
+
+// XHTMLFromLogical is FromLogical as a well-formed XHTML content document (EPUB).
+func XHTMLFromLogical(d *logical.Doc) []byte { return fromLogical(d, true) }
+
+func fromLogical(d *logical.Doc, xhtml bool) []byte {
 	var sb strings.Builder
-	sb.WriteString("<!DOCTYPE html>\n<html><head><meta charset=\"utf-8\">")
+	if xhtml {
+		sb.WriteString("<?xml version=\"1.0\" encoding=\"UTF-8\"?>\n<html xmlns=\"http://www.w3.org/1999/xhtml\"><head><meta charset=\"utf-8\"/>")
+	} else {
+		sb.WriteString("<!DOCTYPE html>\n<html><head><meta charset=\"utf-8\">")
+	}
 	if d.Title != "" {
 		fmt.Fprintf(&sb, "<title>%s</title>", html.EscapeString(d.Title))
 	}
@@ -84,7 +93,7 @@ func inlineHTML(p *logical.Para) string {
 		sb.WriteString(open)
 		for _, it := range run.Items {
 			if it.Kind == logical.KBreak {
-				sb.WriteString("<br>")
+				sb.WriteString("<br/>")
 				continue
 			}
 			sb.WriteString(html.EscapeString(logical.ItemString(it)))
